@@ -1,0 +1,57 @@
+//go:build verif
+
+package layer
+
+import (
+	"fmt"
+	"io"
+
+	"github.com/containerd/containerd/v2/pkg/reference"
+	ocispec "github.com/opencontainers/image-spec/specs-go/v1"
+)
+
+// Verification hooks (build tag "verif" only) for property C12: fire the TTL expiry of the resolver's two
+// caches at a chosen point of a history, tell layer objects apart, and read a file through the layer's reader.
+// No behaviour change.
+
+// VerifCacheKeyC12 is the cache key Resolve and resolveBlob use for a layer.
+func VerifCacheKeyC12(refspec reference.Spec, desc ocispec.Descriptor) string {
+	return refspec.String() + "/" + desc.Digest.String()
+}
+
+// VerifExpireLayerC12 runs the body of the layer cache's TTL timer for key.
+func (r *Resolver) VerifExpireLayerC12(key string) { r.layerCache.VerifExpire(key) }
+
+// VerifExpireBlobC12 runs the body of the blob cache's TTL timer for key.
+func (r *Resolver) VerifExpireBlobC12(key string) { r.blobCache.VerifExpire(key) }
+
+// VerifLayerObjectC12 returns the shared *layer behind a Layer handed out by Resolve (comparable; identity only).
+func VerifLayerObjectC12(l Layer) any {
+	if lr, ok := l.(*layerRef); ok {
+		return lr.layer
+	}
+	return nil
+}
+
+// VerifReadFileC12 reads the whole regular file name (a child of the root) through the layer's verified reader.
+func VerifReadFileC12(l Layer, name string, size int) ([]byte, error) {
+	lr, ok := l.(*layerRef)
+	if !ok || lr.layer.r == nil {
+		return nil, fmt.Errorf("no reader")
+	}
+	md := lr.layer.r.Metadata()
+	id, _, err := md.GetChild(md.RootID(), name)
+	if err != nil {
+		return nil, err
+	}
+	ra, err := lr.layer.r.OpenFile(id)
+	if err != nil {
+		return nil, err
+	}
+	p := make([]byte, size)
+	n, err := ra.ReadAt(p, 0)
+	if err != nil && err != io.EOF {
+		return nil, err
+	}
+	return p[:n], nil
+}
